@@ -25,7 +25,7 @@ def gen(rng, k, dll=None):
         s = rng.choice([0, 0, 0, 1])
         sa = addr[s]
         kind = rng.choice(['p2p', 'p2p', 'p2p', 'bam'])
-        outcome = rng.choice(['clean', 'clean', 'lost', 'abort', 'silent', 'nobody', 'rerequest'])
+        outcome = rng.choice(['clean', 'clean', 'lost', 'abort', 'silent', 'nobody', 'rerequest', 'hold'])
         sz = rng.choice([61, 100, 200]) if fd else rng.choice([9, 20, 40])
         if kind == 'bam':
             pf, ps = 0xFE, rng.randrange(256)
@@ -57,6 +57,16 @@ def gen(rng, k, dll=None):
                         inject.append(dict(t=tg, to=s, id=R.ref_can_id(7, 0x4D00 + sa, ps), data=P.fd_cm(1, sess, 0xFFFFFF, nxt, cnt, 0, pf << 8), fd=True))
                 else:
                     inject.append(dict(t=tg, to=s, id=R.ref_tp_cm_id(7, sa, ps), data=[17, cnt, nxt, 255, 255] + R.ref_pgn3(pf << 8)))
+        elif outcome == 'hold' and kind == 'p2p':
+            # the (silenced) peer answers the RTS with 1..3 hold CTS (zero packets), less than Th apart, and falls silent for good
+            faults.append(dict(silent_window=[t + 1, t + 3_000_000], stack=[x for x in (0, 1, 2) if addr[x] == ps][0]))
+            for j in range(rng.randint(1, 3)):
+                tg = t + 2000 + 300_000 * j
+                if fd:
+                    for sess in range(8):
+                        inject.append(dict(t=tg, to=s, id=R.ref_can_id(7, 0x4D00 + sa, ps), data=P.fd_cm(1, sess, 0xFFFFFF, 1, 0, 0, pf << 8), fd=True))
+                else:
+                    inject.append(dict(t=tg, to=s, id=R.ref_tp_cm_id(7, sa, ps), data=[17, 0, 1, 255, 255] + R.ref_pgn3(pf << 8)))
         t += rng.choice([200_000, 1_400_000, 3_300_000, 4_000_000])
     t_final = t + 4_500_000
     # afterwards: the full advertised concurrency from stack 0
